@@ -24,9 +24,9 @@ try:
     subprocess.check_call(["rsync", "-a", "--exclude", "/target", "--exclude", "/.git",
                            "/repo/", str(scratch / "repo") + "/"])
     subprocess.check_call(["git", "apply", str(d / "patch.diff")], cwd=scratch / "repo")
-    if prop == "C05" and os.environ.get("MUTCHECK_NOKC"):
-        cmd = ["python3", str(V / "engine/gen5.py"), "check", "--tier", tier, "--no-kc"]
-        detfile = "detection-gen5.json"
+    if prop in ("C04", "C05") and os.environ.get("MUTCHECK_NOKC"):
+        cmd = ["python3", str(V / ("engine/gen%s.py" % prop[2])), "check", "--tier", tier, "--no-kc"]
+        detfile = "detection-gen%s.json" % prop[2]
     elif prop in ("C06", "C07", "C11", "C12"):
         cmd = ["python3", str(V / ("engine/gen%s.py" % prop[1:].lstrip("0"))), "check", "--tier", tier]
     elif False:
